@@ -6,6 +6,13 @@
 //   STATE lines: solver_state_t{function, x} / update(x, meq, mineq) -> stored ceq, cineq, kkt tests
 //   AL / ALIT / ALEND lines: one run of solver_augmented_lagrangian_t observed through the NANO_VERIF hooks
 //                (ev_al_outer values + ev_solver_done / ev_solver_exit of the outer loop)
+//   ALO / ALOIT / ALOEND lines (extension "outer"): the initial objective value (make_ro1), the multipliers lambda / miu
+//                every inner solve used (read from the augmented_lagrangian_function_t the inner solver minimises),
+//                the gradient of the augmented Lagrangian at the inner solution, the multipliers stored in the
+//                returned state
+//   PS / PSIT / PSEND lines (extension "outer"): one run of solver_linear_penalty_t / solver_quadratic_penalty_t observed
+//                through the ev_solver_done / ev_solver_exit events of the outer done() calls and the penalty() of
+//                the penalty function seen by the inner solver's done() calls
 //   FAIL  lines: direct property oracles coded here independently of the Coq model (long double formulas written
 //                from the definitions in penalty.h, own constraint evaluation from the generated parameters)
 //   DONE  line : counters / histograms
@@ -15,7 +22,7 @@
 // to the magnitude of the summed terms; K = like T but some constraint value is within rounding of a kink (the
 // sub-gradient of the linear penalty is not compared).
 //
-// usage: c05_penalty <quick|thorough> [npen nal chunk]   |   c05_penalty case <pen|al> <index> [chunk]
+// usage: c05_penalty <quick|thorough> [npen nal chunk nps]   |   c05_penalty case <pen|al|ps> <index> [chunk]
 #include "common.h"
 #include <algorithm>
 #include <map>
@@ -24,6 +31,7 @@
 #include <nano/function/program.h>
 #include <nano/logger.h>
 #include <nano/solver/augmented.h>
+#include <nano/solver/penalty.h>
 #include <nano/solver/state.h>
 #include <nano/verif.h>
 
@@ -38,6 +46,47 @@ using lvec = std::vector<ld>;
 
 namespace
 {
+// ------------------------------------------------------------------------------------------------------------
+// read-only access to state that the library does not expose (extension "outer")
+// ------------------------------------------------------------------------------------------------------------
+// solver_state_t::m_meq / m_mineq (the multipliers stored by update(x, lambda, miu)): explicit template instantiation
+// may name private members (standard C++, no change of the library)
+template <class ttag, typename ttag::type tmember>
+struct rob_t
+{
+    friend typename ttag::type rob_get(ttag) { return tmember; }
+};
+struct meq_tag_t
+{
+    using type = vector_t solver_state_t::*;
+    friend type rob_get(meq_tag_t);
+};
+struct mineq_tag_t
+{
+    using type = vector_t solver_state_t::*;
+    friend type rob_get(mineq_tag_t);
+};
+template struct rob_t<meq_tag_t, &solver_state_t::m_meq>;
+template struct rob_t<mineq_tag_t, &solver_state_t::m_mineq>;
+const vector_t& state_meq(const solver_state_t& state) { return state.*rob_get(meq_tag_t{}); }
+const vector_t& state_mineq(const solver_state_t& state) { return state.*rob_get(mineq_tag_t{}); }
+
+// augmented_lagrangian_function_t::m_lambda / m_miu are reference members (no pointer-to-member exists): they are
+// read through the object layout `penalty_function_t base; const vector_t& m_lambda; const vector_t& m_miu;`
+// (checked: size of the object, sizes of the two vectors, and - at every improving iteration - equality with the
+// multipliers bstate.update(x, lambda, miu) stored in the best state)
+static_assert(sizeof(augmented_lagrangian_function_t) == sizeof(penalty_function_t) + 2 * sizeof(void*),
+              "layout of augmented_lagrangian_function_t changed: adapt al_multipliers()");
+bool al_multipliers(const function_t& function, const vector_t*& lambda, const vector_t*& miu)
+{
+    const auto* alf = dynamic_cast<const augmented_lagrangian_function_t*>(&function);
+    if (alf == nullptr) return false;
+    const auto* base = reinterpret_cast<const char*>(static_cast<const penalty_function_t*>(alf)) + sizeof(penalty_function_t);
+    std::memcpy(&lambda, base, sizeof(void*));
+    std::memcpy(&miu, base + sizeof(void*), sizeof(void*));
+    return lambda != nullptr && miu != nullptr;
+}
+
 // ------------------------------------------------------------------------------------------------------------
 // own objective / functional classes (parameters known to the harness)
 // ------------------------------------------------------------------------------------------------------------
@@ -110,6 +159,41 @@ public:
     }
 
     double m_c;
+};
+
+// f(x) = 1/2 x.P x + q.x on the box |x - c|_inf <= B, NaN outside (an objective with a restricted domain: makes the
+// inner solver of the penalty solvers return an invalid state -> the `continue` branch of solver_penalty_t::minimize)
+class domain_function_t final : public function_t
+{
+public:
+    domain_function_t(dvec P, dvec q, dvec c, double B)
+        : function_t("domain", static_cast<tensor_size_t>(q.size()))
+        , m_poly(std::move(P), std::move(q), 0.0, true)
+        , m_c(std::move(c))
+        , m_B(B)
+    {
+        convex(convexity::no);
+        smooth(smoothness::yes);
+    }
+
+    rfunction_t clone() const override { return std::make_unique<domain_function_t>(*this); }
+
+    scalar_t do_vgrad(vector_cmap_t x, vector_map_t gx) const override
+    {
+        for (tensor_size_t i = 0; i < x.size(); ++i)
+        {
+            if (!(std::fabs(x(i) - m_c[static_cast<size_t>(i)]) <= m_B))
+            {
+                if (gx.size() == x.size()) gx.full(std::numeric_limits<scalar_t>::quiet_NaN());
+                return std::numeric_limits<scalar_t>::quiet_NaN();
+            }
+        }
+        return m_poly.do_vgrad(x, gx);
+    }
+
+    poly_function_t m_poly;
+    dvec            m_c;
+    double          m_B;
 };
 
 // ------------------------------------------------------------------------------------------------------------
@@ -900,6 +984,11 @@ struct al_iter_t
     bool have_done{false}, done_ok{false}, done_conv{false}, bvalid{false}, have_exit{false}, stop{false};
     dvec bx;
     int  status{0};
+    // extension "outer": multipliers the inner solve used, gradient / value of the augmented Lagrangian at the inner
+    // solution, multipliers stored in the best state when done() was entered
+    bool   have_mult{false}, smooth{false};
+    dvec   lambda, miu, cgx, bmeq, bmineq;
+    double cfx{0};
 };
 
 struct al_ctx_t
@@ -909,6 +998,81 @@ struct al_ctx_t
     std::vector<al_iter_t> iters;
     long                   inner_done{0};
 } g_al;
+
+// ------------------------------------------------------------------------------------------------------------
+// penalty solver cases (extension "outer"): observation of solver_penalty_t::minimize
+// ------------------------------------------------------------------------------------------------------------
+struct ps_iter_t
+{
+    double penalty{0};
+    bool   ok{false}; // an outer done() call followed the inner solve (cstate.valid())
+    dvec   cx, ceq, cineq;
+    double fx{0};
+    bool   bvalid{false}, conv{false}, stop{false}, done_ok{false}, have_exit{false};
+    int    status{0};
+};
+
+struct ps_ctx_t
+{
+    const function_t*      function{nullptr};
+    std::vector<ps_iter_t> iters;
+    bool                   open{false}; // an inner solve is in progress (no outer done() seen yet)
+    bool                   anomaly{false};
+    long                   inner_done{0};
+} g_ps;
+
+void ps_on_event(int kind, const solver_state_t& state, std::uint64_t a, std::uint64_t b)
+{
+    if (&state.function() != g_ps.function)
+    {
+        // done() of the inner solver: its function is the penalty function, whose penalty() is what this solve uses
+        if (kind != verif::ev_solver_done) return;
+        g_ps.inner_done++;
+        const auto* pf = dynamic_cast<const penalty_function_t*>(&state.function());
+        if (pf == nullptr || &pf->function() != g_ps.function)
+        {
+            g_ps.anomaly = true;
+            return;
+        }
+        if (!g_ps.open || pf->penalty() != g_ps.iters.back().penalty)
+        {
+            // a new inner solve (if the previous one is still open, no outer done() followed it: `continue`)
+            ps_iter_t it;
+            it.penalty = pf->penalty();
+            g_ps.iters.push_back(std::move(it));
+            g_ps.open = true;
+        }
+        return;
+    }
+    if (!g_ps.open && kind == verif::ev_solver_done)
+    {
+        g_ps.anomaly = true; // an outer done() without any observed inner solve
+        ps_iter_t it;
+        it.penalty = std::numeric_limits<double>::quiet_NaN();
+        g_ps.iters.push_back(std::move(it));
+        g_ps.open = true;
+    }
+    if (g_ps.iters.empty()) return;
+    auto& it = g_ps.iters.back();
+    if (kind == verif::ev_solver_done)
+    {
+        it.ok      = true;
+        it.done_ok = a != 0U;
+        it.conv    = b != 0U;
+        it.cx      = from_vector(state.x());
+        it.fx      = state.fx();
+        it.ceq     = from_vector(state.ceq());
+        it.cineq   = from_vector(state.cineq());
+        it.bvalid  = state.valid();
+    }
+    else
+    {
+        it.have_exit = true;
+        it.stop      = a != 0U;
+        it.status    = static_cast<int>(state.status());
+        g_ps.open    = false;
+    }
+}
 
 void on_values(int kind, const void* object, const double* values, int count)
 {
@@ -934,11 +1098,27 @@ void on_values(int kind, const void* object, const double* values, int count)
         bn = std::max(bn, std::fabs(g_al.bx[i]));
     }
     it.dx = dx < it.eps * std::max(1.0, bn);
+    it.cgx = from_vector(cstate.gx());
+    it.cfx = cstate.fx();
+    it.smooth = cstate.function().smooth(); // non-smooth inner solvers (update_if_better) do not store the gradient at x
+    const vector_t *lambda = nullptr, *miu = nullptr;
+    if (al_multipliers(cstate.function(), lambda, miu) && lambda->size() == cstate.ceq().size() &&
+        miu->size() == cstate.cineq().size())
+    {
+        it.have_mult = true;
+        it.lambda    = from_vector(*lambda);
+        it.miu       = from_vector(*miu);
+    }
     g_al.iters.push_back(std::move(it));
 }
 
 void on_event(int kind, const void* object, std::uint64_t a, std::uint64_t b)
 {
+    if (g_ps.function != nullptr)
+    {
+        if (kind == verif::ev_solver_done || kind == verif::ev_solver_exit) ps_on_event(kind, *static_cast<const solver_state_t*>(object), a, b);
+        return;
+    }
     if (g_al.function == nullptr || (kind != verif::ev_solver_done && kind != verif::ev_solver_exit)) return;
     const auto& state = *static_cast<const solver_state_t*>(object);
     if (&state.function() != g_al.function)
@@ -955,6 +1135,8 @@ void on_event(int kind, const void* object, std::uint64_t a, std::uint64_t b)
         it.done_conv = b != 0U;
         it.bvalid    = state.valid();
         it.bx        = from_vector(state.x());
+        it.bmeq      = from_vector(state_meq(state));
+        it.bmineq    = from_vector(state_mineq(state));
         g_al.bx      = it.bx;
     }
     else
@@ -965,20 +1147,33 @@ void on_event(int kind, const void* object, std::uint64_t a, std::uint64_t b)
     }
 }
 
-void al_case(uint64_t seed, const std::string& id, bool verbose)
+// a random constrained problem: convex QP / LP through program:: + make_function, or an own convex quadratic with
+// box / ball / quadratic / functional / mixed constraints (5% infeasible)
+struct problem_t
 {
-    vh::rng_t  pick(seed);
-    gen_t      g(pick.next(), false);
-    auto&      rng    = g.rng;
-    const auto family = rng.range(0, 9);
-    const auto n      = static_cast<size_t>(rng.range(1, 5));
-    // a reference point the constraints are built around
-    dvec xs(n);
-    for (auto& v : xs) v = rng.unit() * 4.0 - 2.0;
-
+    size_t               n{0};
+    dvec                 xs;     // reference point the constraints are built around
     std::vector<cdesc_t> cs;     // own description of every constraint of the constrained function
     rfunction_t          function;
     std::string          descr;
+    bool                 infeasible{false};
+};
+
+bool make_problem(gen_t& g, const std::string& id, problem_t& prob)
+{
+    auto& rng        = g.rng;
+    auto& xs         = prob.xs;
+    auto& cs         = prob.cs;
+    auto& function   = prob.function;
+    auto& descr      = prob.descr;
+    auto& infeasible = prob.infeasible;
+    const auto family = rng.range(0, 9);
+    const auto n      = static_cast<size_t>(rng.range(1, 5));
+    prob.n            = n;
+    // a reference point the constraints are built around
+    xs.assign(n, 0.0);
+    for (auto& v : xs) v = rng.unit() * 4.0 - 2.0;
+
     // keep programs alive: make_function(program) captures references
     static std::vector<std::unique_ptr<program::quadratic_program_t>> keep_qp;
     static std::vector<std::unique_ptr<program::linear_program_t>>    keep_lp;
@@ -993,7 +1188,7 @@ void al_case(uint64_t seed, const std::string& id, bool verbose)
         c.v    = -b;
         cs.push_back(std::move(c));
     };
-    bool infeasible = rng.range(0, 19) == 0;
+    infeasible = rng.range(0, 19) == 0;
 
     if (family <= 3)
     {
@@ -1087,7 +1282,7 @@ void al_case(uint64_t seed, const std::string& id, bool verbose)
         {
             fail("program-constraints", id, "make_function registered " + std::to_string(function->constraints().size()) +
                                                 " constraints, the program has " + std::to_string(cs.size()));
-            return;
+            return false;
         }
     }
     else
@@ -1148,11 +1343,27 @@ void al_case(uint64_t seed, const std::string& id, bool verbose)
             if (!function->constrain(make_constraint(c, n)))
             {
                 fail("constrain-rejected", id, describe(c, xs, n));
-                return;
+                return false;
             }
         }
     }
     if (infeasible) descr += "+infeasible";
+    return true;
+}
+
+void al_case(uint64_t seed, const std::string& id, bool verbose)
+{
+    vh::rng_t  pick(seed);
+    gen_t      g(pick.next(), false);
+    auto&      rng    = g.rng;
+    problem_t  prob;
+    if (!make_problem(g, id, prob)) return;
+    const auto n          = prob.n;
+    auto&      xs         = prob.xs;
+    auto&      cs         = prob.cs;
+    auto&      function   = prob.function;
+    auto&      descr      = prob.descr;
+    const bool infeasible = prob.infeasible;
 
     // solver configuration
     auto       solver = solver_augmented_lagrangian_t{};
@@ -1191,6 +1402,7 @@ void al_case(uint64_t seed, const std::string& id, bool verbose)
                 vh::hexf(tau).c_str(), vh::hexf(gamma).c_str(), vh::hexf(miu_max).c_str(), vh::hexf(lmin).c_str(),
                 vh::hexf(lmax).c_str(), max_outers, hexv(x0).c_str(), s0.ceq().size() ? hexv(s0.ceq()).c_str() : "-",
                 s0.cineq().size() ? hexv(s0.cineq()).c_str() : "-", descr.c_str(), describe_all(cs, x0).c_str());
+    std::printf("ALO %s | %s\n", id.c_str(), vh::hexf(s0.fx()).c_str());
 
     g_al.function = function.get();
     g_al.bx       = x0;
@@ -1209,6 +1421,9 @@ void al_case(uint64_t seed, const std::string& id, bool verbose)
     for (const auto& it : g_al.iters)
     {
         hooks_ok = hooks_ok && it.have_done && it.have_exit;
+        if (it.have_mult)
+            std::printf("ALOIT %s %d | %s | %s\n", id.c_str(), it.outer, it.lambda.empty() ? "-" : hexv(it.lambda).c_str(),
+                        it.miu.empty() ? "-" : hexv(it.miu).c_str());
         std::printf("ALIT %s %d | %s | %s | %s | %d | %d | %d = %s | %s | %s | %d | %d | %s | %d\n", id.c_str(), it.outer,
                     hexv(it.cx).c_str(), it.ceq.empty() ? "-" : hexv(it.ceq).c_str(), it.cineq.empty() ? "-" : hexv(it.cineq).c_str(),
                     it.ok ? 1 : 0, it.dx ? 1 : 0, it.bvalid ? 1 : 0, vh::hexf(it.crit).c_str(), vh::hexf(it.old).c_str(),
@@ -1221,10 +1436,141 @@ void al_case(uint64_t seed, const std::string& id, bool verbose)
     // ---- direct oracle on the returned state -------------------------------------------------------------
     const auto xr        = from_vector(state.x());
     const bool converged = state.status() == solver_status::converged;
+    std::printf("ALOEND %s | %s | %s | %s\n", id.c_str(), state_meq(state).size() ? hexv(state_meq(state)).c_str() : "-",
+                state_mineq(state).size() ? hexv(state_mineq(state)).c_str() : "-", vh::hexf(state.kkt_optimality_test5()).c_str());
     std::printf("ALEND %s | %d | %s | %s | %s | %s | %s | %zu\n", id.c_str(), static_cast<int>(state.status()), hexv(xr).c_str(),
                 state.ceq().size() ? hexv(state.ceq()).c_str() : "-", state.cineq().size() ? hexv(state.cineq()).c_str() : "-",
                 vh::hexf(state.kkt_optimality_test1()).c_str(), vh::hexf(state.kkt_optimality_test2()).c_str(), g_al.iters.size());
     const auto problem = [&]() { return "eps=" + vh::hexf(eps) + " x0=" + hexv(x0) + " x=" + hexv(xr) + " " + descr + " :: " + describe_all(cs, xr); };
+    // ---- extension "outer": direct oracles on the multipliers, the first-order identity and the KKT residuals ----------
+    {
+        // grad f + sum ml_j grad h_j + sum mi_i grad g_i at x from the harness' own constraint formulas (long double);
+        // mult(eq, index, value) gives the multiplier of a constraint; gsum[j] = sum_c |grad c_j|
+        const auto lagrangian = [&](const dvec& x, const auto& mult, lvec& L, lvec& mag, lvec& gsum)
+        {
+            vector_t gf{static_cast<tensor_size_t>(n)};
+            function->vgrad(to_vector(x), gf);
+            L.assign(n, 0), mag.assign(n, 0), gsum.assign(n, 0);
+            for (size_t j = 0; j < n; ++j) L[j] = gf(static_cast<tensor_size_t>(j)), mag[j] = fabsl(L[j]);
+            size_t je = 0, ji = 0;
+            for (const auto& c : cs)
+            {
+                const bool eq = own_is_eq(c.kind);
+                const auto ev = own_eval(c, x);
+                const auto [m, dm] = mult(eq, eq ? je : ji, ev);
+                (eq ? je : ji)++;
+                for (size_t j = 0; j < n; ++j)
+                {
+                    L[j] += m * ev.grad[j];
+                    mag[j] += fabsl(m) * (fabsl(ev.grad[j]) + ev.gmag[j]) + dm * fabsl(ev.grad[j]);
+                    gsum[j] += fabsl(ev.grad[j]);
+                }
+            }
+        };
+        const auto where = [&](const al_iter_t& it) { return "outer " + std::to_string(it.outer) + " ro=" + vh::hexf(it.ro) + " lambda=" + hexv(it.lambda) + " miu=" + hexv(it.miu) + " " + problem(); };
+        int last_update = -1;
+        for (size_t k = 0; k < g_al.iters.size(); ++k)
+        {
+            const auto& it = g_al.iters[k];
+            if (!it.have_mult)
+            {
+                fail("al-multipliers-unobserved", id, "the inner solver's function is not an augmented_lagrangian_function_t of the expected layout");
+                break;
+            }
+            g_count["alo-events"]++;
+            bool range_ok = true, start_ok = true;
+            for (const auto m : it.miu) range_ok = range_ok && m >= 0.0 && m <= miu_max, start_ok = start_ok && (k > 0 || m == 0.0);
+            for (const auto l : it.lambda) range_ok = range_ok && (k == 0 || (l >= lmin && l <= lmax)), start_ok = start_ok && (k > 0 || l == 0.0);
+            if (!range_ok) fail("al-multiplier-range", id, where(it));
+            if (!start_ok) fail("al-multiplier-start", id, where(it));
+            // ro_1 = make_ro1 lies within [1e-6, 10]; afterwards ro stays or is multiplied by gamma (never at outer 0 -> 1)
+            if (!(it.ro >= 1e-6) || (k == 0 && !(it.ro <= 10.0)) ||
+                (k > 0 && it.ro != g_al.iters[k - 1].ro && (k == 1 || it.ro != gamma * g_al.iters[k - 1].ro)))
+                fail("al-ro-range", id, where(it));
+            if (it.ok && it.crit < it.old && it.have_done)
+            {
+                last_update = static_cast<int>(k);
+                if (it.bmeq != it.lambda || it.bmineq != it.miu) fail("al-stored-multipliers", id, where(it));
+            }
+            if (it.ok && it.smooth)
+            {
+                // the gradient of the augmented Lagrangian at the inner solution (as the library computed it) is the
+                // gradient of the ordinary Lagrangian at lambda + ro h, max(0, miu + ro g)
+                lvec L, mag, gsum;
+                lagrangian(it.cx, [&](bool eq, size_t i, const ceval_t& ev)
+                           {
+                               const ld m = eq ? static_cast<ld>(it.lambda[i]) + static_cast<ld>(it.ro) * ev.val
+                                               : std::max<ld>(0, static_cast<ld>(it.miu[i]) + static_cast<ld>(it.ro) * ev.val);
+                               return std::make_pair(m, static_cast<ld>(it.ro) * (ev.mag + fabsl(ev.val)) + fabsl(eq ? it.lambda[i] : it.miu[i]));
+                           }, L, mag, gsum);
+                bool same = true;
+                for (size_t j = 0; j < n && same; ++j)
+                    same = !std::isfinite(it.cgx[j]) || fabsl(L[j] - it.cgx[j]) <= 1e-9L * mag[j] + 1e-300L;
+                g_count["alo-gradient-identity-checked"]++;
+                if (!same) fail("al-gradient-identity", id, "cgx=" + hexv(it.cgx) + " cx=" + hexv(it.cx) + " " + where(it));
+                // ... and the multipliers the NEXT inner solve really uses make this inner solution stationary for the
+                // ordinary Lagrangian to the same degree (the first-order update with the penalty this solve used),
+                // unless a clamp was hit
+                if (k + 1 < g_al.iters.size() && g_al.iters[k + 1].have_mult)
+                {
+                    const auto& nx      = g_al.iters[k + 1];
+                    bool        inside = true;
+                    for (const auto l : nx.lambda) inside = inside && l > lmin && l < lmax;
+                    for (const auto m : nx.miu) inside = inside && m < miu_max;
+                    if (inside)
+                    {
+                        lagrangian(it.cx, [&](bool eq, size_t i, const ceval_t& ev)
+                                   {
+                                       return std::make_pair(static_cast<ld>(eq ? nx.lambda[i] : nx.miu[i]),
+                                                             static_cast<ld>(it.ro) * (ev.mag + fabsl(ev.val)) + fabsl(eq ? it.lambda[i] : it.miu[i]));
+                                   }, L, mag, gsum);
+                        bool stationary = true;
+                        for (size_t j = 0; j < n && stationary; ++j)
+                            stationary = !std::isfinite(it.cgx[j]) || fabsl(L[j] - it.cgx[j]) <= 1e-9L * mag[j] + 1e-300L;
+                        g_count["alo-next-multipliers-checked"]++;
+                        if (!stationary)
+                            fail("al-next-multipliers-stationary", id, "next lambda=" + hexv(nx.lambda) + " next miu=" + hexv(nx.miu) + " cgx=" + hexv(it.cgx) + " cx=" + hexv(it.cx) + " " + where(it));
+                    }
+                }
+            }
+        }
+        if (converged && last_update >= 0 && !g_al.iters.empty() && g_al.iters.back().have_mult)
+        {
+            const auto& it = g_al.iters[static_cast<size_t>(last_update)];
+            g_count["alo-kkt-checked"]++;
+            const auto rmeq = from_vector(state_meq(state)), rmineq = from_vector(state_mineq(state));
+            if (rmeq != it.lambda || rmineq != it.miu || xr != it.cx) fail("al-returned-multipliers", id, where(it));
+            else
+            {
+                // stationarity with the returned multipliers, recomputed from the problem
+                lvec L, mag, gsum;
+                lagrangian(xr, [&](bool eq, size_t i, const ceval_t&) { return std::make_pair(static_cast<ld>(eq ? rmeq[i] : rmineq[i]), static_cast<ld>(0)); },
+                           L, mag, gsum);
+                ld s5 = 0, m5 = 0, bound = 0, cinf = 0;
+                for (const auto v : it.cgx) cinf = std::max(cinf, fabsl(v));
+                for (size_t j = 0; j < n; ++j)
+                {
+                    s5    = std::max(s5, fabsl(L[j]));
+                    m5    = std::max(m5, mag[j]);
+                    bound = std::max(bound, cinf + static_cast<ld>(it.ro) * it.crit * gsum[j] + 1e-9L * (mag[j] + static_cast<ld>(it.ro) * it.crit * gsum[j]));
+                }
+                if (fabsl(s5 - state.kkt_optimality_test5()) > 1e-9L * m5 + 1e-300L)
+                    fail("al-kkt-stationarity-stored", id, "recomputed " + vh::hexf(static_cast<double>(s5)) + " stored " + vh::hexf(state.kkt_optimality_test5()) + " " + where(it));
+                if (it.smooth && s5 > bound)
+                    fail("al-kkt-stationarity-bound", id, "recomputed " + vh::hexf(static_cast<double>(s5)) + " bound " + vh::hexf(static_cast<double>(bound)) + " " + where(it));
+                // approximate complementarity: what make_criterion's max(g, -miu/ro) measures
+                for (size_t i = 0; i < rmineq.size(); ++i)
+                {
+                    const auto gi = state.cineq()(static_cast<tensor_size_t>(i));
+                    const auto v  = std::fabs(std::max(gi, -rmineq[i] / it.ro));
+                    const auto mp = std::max(0.0, rmineq[i] + it.ro * gi);
+                    if (!(rmineq[i] >= 0.0) || !(v <= eps) || (mp > 0.0 && !(gi >= -eps * (1.0 + 1e-12))))
+                        fail("al-kkt-complementarity", id, "inequality " + std::to_string(i) + " g=" + vh::hexf(gi) + " " + where(it));
+                }
+                if (!(it.crit <= eps)) fail("al-kkt-criterion", id, where(it));
+            }
+        }
+    }
     if (!g_al.iters.empty() && g_al.iters.back().have_done && converged != g_al.iters.back().done_conv)
         fail("al-status-vs-done", id, problem());
     {
@@ -1256,6 +1602,165 @@ void al_case(uint64_t seed, const std::string& id, bool verbose)
     }
     (void)verbose;
 }
+// ------------------------------------------------------------------------------------------------------------
+// one run of solver_linear_penalty_t / solver_quadratic_penalty_t (extension "outer")
+// ------------------------------------------------------------------------------------------------------------
+void ps_case(uint64_t seed, const std::string& id, bool verbose)
+{
+    vh::rng_t pick(seed);
+    gen_t     g(pick.next(), false);
+    auto&     rng = g.rng;
+    problem_t prob;
+    if (!make_problem(g, id, prob)) return;
+    const auto n        = prob.n;
+    auto&      xs       = prob.xs;
+    auto&      cs       = prob.cs;
+    auto&      function = prob.function;
+    auto&      descr    = prob.descr;
+
+    // 20%: the objective gets a restricted domain (NaN outside a box around the reference point)
+    const bool domain = descr.rfind("poly", 0) == 0 && rng.range(0, 4) == 0;
+    if (domain)
+    {
+        const auto* poly = dynamic_cast<const poly_function_t*>(function.get());
+        auto        dfun = std::make_unique<domain_function_t>(poly->m_P, poly->m_q, xs, 1.0 + 3.0 * rng.unit());
+        for (const auto& c : cs) dfun->constrain(make_constraint(c, n));
+        function = std::move(dfun);
+        descr    = "domain" + descr.substr(4);
+    }
+
+    const bool quadratic = rng.range(0, 2) != 0;
+    // non-smooth problems are minimised with OSGA whatever the penalty (slow): keep their budget small
+    rsolver_t  solver = quadratic ? rsolver_t{std::make_unique<solver_quadratic_penalty_t>()} : rsolver_t{std::make_unique<solver_linear_penalty_t>()};
+    const auto eps    = std::pow(10.0, -9.0 + 5.0 * rng.unit());
+    solver->parameter("solver::epsilon") = eps;
+    double eta = 5.0, penalty0 = 10.0, epsK = 0.5, eps0 = quadratic ? 1e-6 : 1e-8;
+    int    max_outers = 20;
+    if (rng.range(0, 2) == 0)
+    {
+        eta        = 1.0 + std::pow(10.0, -1.0 + 2.0 * rng.unit());
+        penalty0   = std::pow(10.0, -3.0 + 6.0 * rng.unit());
+        epsK       = 0.1 + 0.9 * rng.unit();
+        max_outers = static_cast<int>(rng.range(10, 30));
+        if (rng.range(0, 1)) eps0 = std::pow(10.0, -9.0 + 6.0 * rng.unit());
+        solver->parameter("solver::penalty::eta")             = eta;
+        solver->parameter("solver::penalty::penalty0")        = penalty0;
+        solver->parameter("solver::penalty::epsilonK")        = epsK;
+        solver->parameter("solver::penalty::max_outer_iters") = max_outers;
+        solver->parameter("solver::penalty::epsilon0")        = eps0;
+    }
+    const bool smooth_problem = quadratic && function->smooth() &&
+                                std::all_of(function->constraints().begin(), function->constraints().end(), [](const auto& c) { return ::nano::smooth(c); });
+    solver->parameter("solver::max_evals") = smooth_problem ? (rng.range(0, 4) == 0 ? rng.range(20, 300) : 1000) : rng.range(50, 400);
+
+    dvec       x0(n);
+    const auto where = rng.range(0, 9);
+    for (size_t j = 0; j < n; ++j) x0[j] = where == 0 ? xs[j] : (where == 1 ? (rng.unit() * 2.0 - 1.0) * 1e2 : xs[j] + rng.unit() * 4.0 - 2.0);
+    const auto x0v = to_vector(x0);
+
+    const auto s0 = solver_state_t{*function, x0v};
+    const auto vstr = [](const dvec& v) { return v.empty() ? std::string("-") : hexv(v); };
+    std::printf("PS %s | %s | %s | %s | %s | %s | %s | %d | %s | %s | %s | %s | %d | %s :: %s\n", id.c_str(), quadratic ? "quad" : "lin",
+                vh::hexf(eps).c_str(), vh::hexf(eta).c_str(), vh::hexf(penalty0).c_str(), vh::hexf(eps0).c_str(), vh::hexf(epsK).c_str(),
+                max_outers, hexv(x0).c_str(), vh::hexf(s0.fx()).c_str(), vstr(from_vector(s0.ceq())).c_str(),
+                vstr(from_vector(s0.cineq())).c_str(), s0.valid() ? 1 : 0, descr.c_str(), describe_all(cs, x0).c_str());
+
+    g_ps.function = function.get();
+    g_ps.iters.clear();
+    g_ps.open       = false;
+    g_ps.anomaly    = false;
+    g_ps.inner_done = 0;
+    const auto logger = make_null_logger();
+    const auto state  = solver->minimize(*function, x0v, logger);
+    g_ps.function     = nullptr;
+
+    const auto& iters = g_ps.iters;
+    g_count[std::string("ps-solver:") + (quadratic ? "quadratic" : "linear")]++;
+    g_count["ps-family:" + descr.substr(0, descr.find('+'))]++;
+    g_count[std::string("ps-status:") + std::to_string(static_cast<int>(state.status()))]++;
+    g_count["ps-outer-iterations"] += static_cast<long>(iters.size());
+    g_count["ps-inner-done-events"] += g_ps.inner_done;
+
+    for (size_t k = 0; k < iters.size(); ++k)
+    {
+        const auto& it = iters[k];
+        if (!it.ok) g_count["ps-skipped-iterations"]++;
+        if (it.ok)
+            std::printf("PSIT %s %zu | %s | 1 | %s | %s | %s | %s | %d = %d | %d | %d\n", id.c_str(), k, vh::hexf(it.penalty).c_str(),
+                        hexv(it.cx).c_str(), vh::hexf(it.fx).c_str(), vstr(it.ceq).c_str(), vstr(it.cineq).c_str(), it.bvalid ? 1 : 0,
+                        it.conv ? 1 : 0, it.stop ? 1 : 0, it.status);
+        else std::printf("PSIT %s %zu | %s | 0 | - | - | - | - | 0 = 0 | 0 | 0\n", id.c_str(), k, vh::hexf(it.penalty).c_str());
+    }
+    const auto xr = from_vector(state.x());
+    std::printf("PSEND %s | %d | %s | %s | %s | %s | %d | %zu\n", id.c_str(), static_cast<int>(state.status()), hexv(xr).c_str(),
+                vh::hexf(state.fx()).c_str(), vstr(from_vector(state.ceq())).c_str(), vstr(from_vector(state.cineq())).c_str(),
+                state.valid() ? 1 : 0, iters.size());
+
+    // ---- direct oracles (independent of the model) ------------------------------------------------------------
+    const auto problem = [&]() { return std::string(quadratic ? "quadratic" : "linear") + "-penalty eps=" + vh::hexf(eps) + " eta=" + vh::hexf(eta) + " penalty0=" + vh::hexf(penalty0) + " max_outers=" + std::to_string(max_outers) + " x0=" + hexv(x0) + " x=" + hexv(xr) + " " + descr + " :: " + describe_all(cs, xr); };
+    if (g_ps.anomaly || iters.empty()) fail("ps-hooks-missing", id, problem());
+    // the penalty of the k-th inner solve is penalty0 * eta^k (one double multiplication per iteration), at most max_outers solves
+    bool seq = !iters.empty() && iters.size() <= static_cast<size_t>(max_outers) && iters[0].penalty == penalty0;
+    for (size_t k = 1; k < iters.size() && seq; ++k) seq = iters[k].penalty == iters[k - 1].penalty * eta;
+    if (!seq)
+    {
+        std::string ps;
+        for (const auto& it : iters) ps += (ps.empty() ? "" : ",") + vh::hexf(it.penalty);
+        fail("ps-penalty-sequence", id, "penalties=" + ps + " " + problem());
+    }
+    // done()'s decisions and ::nano::converged, recomputed here; the best point is the last usable inner solution
+    dvec bx   = x0;
+    bool over = false;
+    for (size_t k = 0; k < iters.size(); ++k)
+    {
+        const auto& it = iters[k];
+        if (over) fail("ps-iteration-after-stop", id, problem());
+        if (!it.ok) continue;
+        double dx = 0.0, bn = 0.0;
+        for (size_t i = 0; i < n; ++i) dx = std::max(dx, std::fabs(it.cx[i] - bx[i])), bn = std::max(bn, std::fabs(bx[i]));
+        const bool own_conv = dx < eps * std::max(1.0, bn);
+        if (!it.done_ok || own_conv != it.conv || !it.have_exit || it.stop != (it.conv || !it.bvalid) ||
+            (it.stop && it.status != ((it.conv && it.bvalid) ? 1 : 2)))
+            fail("ps-done-decisions", id, "iteration " + std::to_string(k) + " cx=" + hexv(it.cx) + " bx=" + hexv(bx) + " " + problem());
+        bx   = it.cx;
+        over = it.stop;
+    }
+    if (xr != bx) fail("ps-returned-point", id, "expected " + hexv(bx) + " " + problem());
+    if (!over && !iters.empty() && (iters.size() != static_cast<size_t>(max_outers) || state.status() != solver_status::max_iters))
+        fail("ps-exhausted", id, std::to_string(iters.size()) + " inner solves " + problem());
+    if (over && static_cast<int>(state.status()) != iters.back().status) fail("ps-status", id, problem());
+    // the returned state is a state of the ORIGINAL function: value, constraint values recomputed from the problem
+    if (&state.function() != function.get()) fail("ps-state-function", id, problem());
+    {
+        vector_t   gx{static_cast<tensor_size_t>(n)};
+        const auto fx = function->vgrad(state.x(), gx);
+        bool       same = (fx == state.fx()) || (std::isnan(fx) && std::isnan(state.fx()));
+        tensor_size_t je = 0, ji = 0;
+        const tol_t   tol{false};
+        ld            worst = 0;
+        for (size_t i = 0; i < cs.size() && state.valid(); ++i)
+        {
+            const bool eq     = own_is_eq(cs[i].kind);
+            const auto stored = eq ? state.ceq()(je) : state.cineq()(ji);
+            (eq ? je : ji)++;
+            const auto own = own_eval(cs[i], xr);
+            same           = same && stored == ::nano::vgrad(function->constraints()[i], state.x()) && tol.ok(stored, own.val, own.mag);
+            worst          = std::max(worst, eq ? fabsl(stored) : std::max<ld>(0, stored));
+        }
+        if (!same) fail("ps-state-reevaluated", id, "fx " + vh::hexf(state.fx()) + " vs " + vh::hexf(fx) + " " + problem());
+        // NOT part of the property: `converged` of a penalty solver does not mean feasible (counted, first case shown)
+        if (state.status() == solver_status::converged)
+        {
+            g_count["ps-converged"]++;
+            if (worst > eps)
+            {
+                g_count[std::string("ps-converged-infeasible:") + (quadratic ? "quadratic" : "linear")]++;
+                if (!prob.infeasible) g_count["ps-converged-infeasible-on-feasible-problem"]++;
+                if (verbose) std::printf("NOTE ps-converged-infeasible %s violation %s > eps %s %s\n", id.c_str(), vh::hexf(static_cast<double>(worst)).c_str(), vh::hexf(eps).c_str(), problem().c_str());
+            }
+        }
+    }
+}
 } // namespace
 
 int main(int argc, char** argv)
@@ -1274,6 +1779,7 @@ int main(int argc, char** argv)
         const auto        chunk = argc > 4 ? std::strtoull(argv[4], nullptr, 10) : 0ULL;
         const auto        id    = std::to_string(chunk) + "." + std::to_string(index);
         if (what == "pen") pen_case(mix(seed, 1 + 2 * chunk, index), "p" + id, true);
+        else if (what == "ps") ps_case(mix(seed ^ 0x5053ULL, 1 + 2 * chunk, index), "s" + id, true);
         else al_case(mix(seed, 2 + 2 * chunk, index), "a" + id, true);
         std::printf("DONE fails=%ld\n", g_fails);
         return 0;
@@ -1285,12 +1791,15 @@ int main(int argc, char** argv)
     if (argc > 2) npen = std::strtoull(argv[2], nullptr, 10);
     if (argc > 3) nal = std::strtoull(argv[3], nullptr, 10);
     if (argc > 4) chunk = std::strtoull(argv[4], nullptr, 10);
+    uint64_t nps = 0;
+    if (argc > 5) nps = std::strtoull(argv[5], nullptr, 10);
 
     for (uint64_t i = 0; i < npen; ++i) pen_case(mix(seed, 1 + 2 * chunk, i), "p" + std::to_string(chunk) + "." + std::to_string(i), false);
     for (uint64_t i = 0; i < nal; ++i) al_case(mix(seed, 2 + 2 * chunk, i), "a" + std::to_string(chunk) + "." + std::to_string(i), false);
+    for (uint64_t i = 0; i < nps; ++i) ps_case(mix(seed ^ 0x5053ULL, 1 + 2 * chunk, i), "s" + std::to_string(chunk) + "." + std::to_string(i), false);
 
     std::string counters;
     for (const auto& [k, v] : g_count) counters += " " + k + "=" + std::to_string(v);
-    std::printf("DONE pen=%" PRIu64 " al=%" PRIu64 " fails=%ld%s\n", npen, nal, g_fails, counters.c_str());
+    std::printf("DONE pen=%" PRIu64 " al=%" PRIu64 " ps=%" PRIu64 " fails=%ld%s\n", npen, nal, nps, g_fails, counters.c_str());
     return 0;
 }
